@@ -10,13 +10,13 @@ var ErrSrc = errors.New("verif: scripted source failure")
 
 // Script describes how a scripted source hands out its bytes.
 type Script struct {
-	Chunks      []int `json:"chunks"`      // sizes of the successive non-empty reads (a smaller buffer gets a part); bytes beyond the sum come in reads as large as the buffer
-	EOFWithData bool  `json:"eofWithData"` // the read that delivers the last byte also returns io.EOF
-	ZeroBefore  []int `json:"zeroBefore"`  // byte offsets at which one (0, nil) read is returned before data continues
-	ErrAt       int   `json:"errAt"`       // -1: never; else the source fails once ErrAt bytes were handed out
-	ErrWithData bool  `json:"errWithData"` // the read that delivers the bytes up to ErrAt returns them together with the error (needs ErrAt > 0)
-	ErrKind     string `json:"errKind"`    // "", "plain", "unexpected-eof", "wrapped-unexpected-eof"
-	Once        bool  `json:"once"`        // the error is returned by one Read only; later reads return (0, io.EOF)
+	Chunks      []int  `json:"chunks"`      // sizes of the successive non-empty reads (a smaller buffer gets a part); bytes beyond the sum come in reads as large as the buffer
+	EOFWithData bool   `json:"eofWithData"` // the read that delivers the last byte also returns io.EOF
+	ZeroBefore  []int  `json:"zeroBefore"`  // byte offsets at which one (0, nil) read is returned before data continues
+	ErrAt       int    `json:"errAt"`       // -1: never; else the source fails once ErrAt bytes were handed out
+	ErrWithData bool   `json:"errWithData"` // the read that delivers the bytes up to ErrAt returns them together with the error (needs ErrAt > 0)
+	ErrKind     string `json:"errKind"`     // "", "plain", "unexpected-eof", "wrapped-unexpected-eof"
+	Once        bool   `json:"once"`        // the error is returned by one Read only; later reads return (0, io.EOF)
 }
 
 // NoErr is the script of a well-behaved source that reads as much as the buffer allows.
